@@ -38,6 +38,33 @@ pub fn check_unary(a: u16) -> R {
     if items != want {
         return fail("effects:iter", format!("iter() of {a:#05x} yields {:?}, expected {:?}", items, want));
     }
+    // the iterator keeps its promises when consumed partly: after k items, count / size_hint / last / nth / a clone
+    // speak about the remaining members only
+    for k in 0..=want.len() {
+        let mut it = e.iter();
+        for _ in 0..k {
+            it.next();
+        }
+        let rest = &want[k..];
+        let (lo, hi) = it.size_hint();
+        if lo > rest.len() || hi.map_or(false, |h| h < rest.len()) {
+            return fail("effects:iter-laws", format!("iter() of {a:#05x} after {k} items: size_hint {:?} but {} members remain", (lo, hi), rest.len()));
+        }
+        if it.clone().count() != rest.len() {
+            return fail("effects:iter-laws", format!("iter() of {a:#05x} after {k} items: count() = {} but {} members remain", it.clone().count(), rest.len()));
+        }
+        if it.clone().last().map(fx_of) != rest.last().copied() {
+            return fail("effects:iter-laws", format!("iter() of {a:#05x} after {k} items: last() is wrong"));
+        }
+        for j in 0..=rest.len().min(2) {
+            if it.clone().nth(j).map(fx_of) != rest.get(j).copied() || it.clone().skip(j).map(fx_of).collect::<Vec<_>>() != rest[j.min(rest.len())..] {
+                return fail("effects:iter-laws", format!("iter() of {a:#05x} after {k} items: nth({j}) / skip({j}) is wrong"));
+            }
+        }
+        if it.clone().map(fx_of).collect::<Vec<_>>() != rest || it.map(fx_of).fold(0u16, |x, y| x | y) != rest.iter().fold(0u16, |x, y| x | y) {
+            return fail("effects:iter-laws", format!("iter() of {a:#05x} after {k} items: the remaining items are wrong"));
+        }
+    }
     // debug form names exactly the members
     let dbg = format!("{e:?}");
     let wnames: Vec<&str> = (0..12).filter(|i| a & (1 << i) != 0).map(|i| NAMES[i]).collect();
@@ -70,6 +97,28 @@ pub fn check_unary(a: u16) -> R {
         let got = fx_of(f(s).get_effects());
         if got != a | (1 << bit) {
             return fail("style:convenience", format!("{}() on {a:#05x} gives {got:#05x}", NAMES[bit].to_lowercase()));
+        }
+    }
+    // `==` and `!=` are complements for every comparison the types offer
+    {
+        let ul = Style::new().effects(e).underline_color(Some(anstyle::Color::Ansi256(Ansi256Color(14))));
+        let fg = Style::new().effects(e).fg_color(Some(anstyle::Color::Ansi(ANSI16[(a % 16) as usize])));
+        let bg = Style::new().effects(e).bg_color(Some(anstyle::Color::Rgb(anstyle::RgbColor(1, 2, 3))));
+        let other = effects_of(a ^ 0x004);
+        for (name, st, expect_eq) in [("plain", s, true), ("underline colour only", ul, false), ("foreground only", fg, false), ("background only", bg, false)] {
+            #[allow(clippy::nonminimal_bool)]
+            if (st == e) != expect_eq || (st != e) == expect_eq {
+                return fail("style:eq-effects", format!("Style ({name}) with effects {a:#05x} vs the Effects value: == is {}, != is {}", st == e, st != e));
+            }
+            if (st == other) || !(st != other) {
+                return fail("style:eq-effects", format!("Style ({name}) with effects {a:#05x} compares equal to different effects"));
+            }
+            if (st == st.clone()) != true || (st != st.clone()) {
+                return fail("style:eq", "a style is not equal to its copy".into());
+            }
+        }
+        if (e == other) || !(e != other) || !(e == effects_of(a)) || (e != effects_of(a)) {
+            return fail("effects:eq", format!("== / != on Effects {a:#05x}"));
         }
     }
     if !(s == e) || Style::from(e) != s {
